@@ -177,12 +177,58 @@ def _new_reaction(H, rid=None, met_source="model"):
     return r
 
 
+def _free_algebra(H):
+    """A reaction that is not in a model, produced by arithmetic on model-less reactions in
+    which at least one coefficient cancels; returns (reaction, expected stoichiometry) - the
+    expectation is dictionary arithmetic with zeros dropped ("If the final coefficient for a
+    metabolite is 0 then it is removed from the reaction")."""
+    import cobra
+
+    a = _new_reaction(H)
+    a.gene_reaction_rule = ""
+    st = {m.id: v for m, v in a.metabolites.items()}
+    mets = H.sorted_mets(a)
+    extra = cobra.Metabolite(H.fresh("nm") + "_c", compartment="c")
+    how = H.rng.choice(["a+b", "a-b", "a+=b", "add_metabolites", "subtract_metabolites"])
+    if not mets:
+        how = "add_metabolites"
+    cancel = H.rng.sample(mets, H.rng.randint(1, len(mets))) if mets else []
+    delta = {m: -a.metabolites[m] for m in cancel}
+    delta[extra] = H.coef()
+    exp = dict(st)
+    for m, v in delta.items():
+        exp[m.id] = exp.get(m.id, 0) + v
+    exp = {k: v for k, v in exp.items() if v != 0}
+    if how in ("a+b", "a+=b", "a-b"):
+        b = cobra.Reaction(H.fresh("fb"), lower_bound=a.lower_bound, upper_bound=a.upper_bound)
+        b.add_metabolites({m: (v if how != "a-b" else -v) for m, v in delta.items()})
+        if how == "a+b":
+            r = a + b
+        elif how == "a-b":
+            r = a - b
+        else:
+            a += b
+            r = a
+    elif how == "add_metabolites":
+        a.add_metabolites(delta)
+        r = a
+    else:
+        a.subtract_metabolites({m: -v for m, v in delta.items()})
+        r = a
+    return r, exp, how
+
+
 @op("model.add_reactions", "edit", "rev", weight=2)
 def _(H):
     rs = []
+    expected = {}
     for _ in range(H.rng.choice([1, 1, 2, 3])):
         q = H.rng.random()
-        if q < 0.7 or not len(H.model.reactions):
+        if q < 0.15:
+            r, exp, how = _free_algebra(H)
+            rs.append(r)
+            expected[r.id] = (exp, how)
+        elif q < 0.7 or not len(H.model.reactions):
             rs.append(_new_reaction(H))
         elif q < 0.8:
             rs.append(_new_reaction(H, rid=H.rxn().id))  # id taken: ignored
@@ -190,7 +236,9 @@ def _(H):
             rs.append(H.spare_rxns.pop())
         else:
             rs.append(_new_reaction(H))
-    desc = {"reactions": [{"id": r.id, "stoich": {m.id: v for m, v in r.metabolites.items()}, "bounds": list(r.bounds), "rule": r.gene_reaction_rule} for r in rs]}
+    desc = {"reactions": [{"id": r.id, "stoich": expected[r.id][0] if r.id in expected else {m.id: v for m, v in r.metabolites.items()}, "bounds": list(r.bounds), "rule": r.gene_reaction_rule} for r in rs]}
+    if expected:
+        desc["free_algebra"] = sorted(hw for _e, hw in expected.values())
     H.model.add_reactions(rs)
     return desc
 
@@ -381,10 +429,19 @@ def _(H):
     g = H.gene()
     q = H.rng.random()
     others = [x.id for x in H.model.genes if x.id != g.id]
-    if q < 0.6 or not others:
+    if q < 0.45 or not others:
         d = {g.id: H.fresh("gn")}
-    elif q < 0.85:
+    elif q < 0.65:
         d = {g.id: H.rng.choice(others)}  # merge onto an existing gene
+    elif q < 0.78:
+        # two genes renamed to the same new identifier: the second is merged into the first
+        new = H.fresh("gn")
+        d = {g.id: new, H.rng.choice(others): new}
+    elif q < 0.9:
+        # several genes at once (no value equals another key: that is documented as undefined)
+        d = {g.id: H.fresh("gn")}
+        for o in H.rng.sample(others, min(len(others), H.rng.randint(1, 2))):
+            d[o] = H.fresh("gn")
     else:
         d = {g.id: H.fresh("gn"), "not_a_gene": "zzz"}
     rename_genes(H.model, d)
